@@ -330,7 +330,7 @@ func init() {
 
 	register(&Rule{
 		Name:  "CHUNK-INDEX",
-		Floor: 4,
+		Floor: 3,
 		Doc:   "in both chunked encoders Add computes chunk = docNum / c.chunkSize, switches chunk exactly when chunk != c.currChunk and records that very quotient as the current chunk; SetChunkSize stores its argument",
 		Run: func(c *Ctx, scope string, r *Report) {
 			for _, name := range []string{"(*chunkedIntCoder).Add", "(*chunkedContentCoder).Add"} {
@@ -360,6 +360,34 @@ func init() {
 							for _, st := range storesToFieldOf(fn, fn.Params[0], "currChunk") {
 								if st.Val == ssa.Value(quo) && fn.Blocks[0].Succs[0].Dominates(st.Block()) {
 									okStore = true
+								}
+							}
+						}
+						// or in a helper method of the same coder that is handed the quotient
+						if !okStore {
+							for _, b := range fn.Blocks {
+								if !fn.Blocks[0].Succs[0].Dominates(b) {
+									continue
+								}
+								for _, ins := range b.Instrs {
+									ci, ok := ins.(ssa.CallInstruction)
+									if !ok {
+										continue
+									}
+									sc := ci.Common().StaticCallee()
+									if sc == nil || !c.inRoot(sc) || sc.Blocks == nil || len(ci.Common().Args) == 0 || ci.Common().Args[0] != ssa.Value(fn.Params[0]) {
+										continue
+									}
+									for ai, a := range ci.Common().Args {
+										if a != ssa.Value(quo) || ai >= len(sc.Params) {
+											continue
+										}
+										for _, st := range storesToFieldOf(sc, sc.Params[0], "currChunk") {
+											if st.Val == ssa.Value(sc.Params[ai]) {
+												okStore = true
+											}
+										}
+									}
 								}
 							}
 						}
@@ -564,17 +592,49 @@ func init() {
 			pdoc := c.MustFn("(*interim).processDocument")
 			key = fnName(pdoc) + "/location-field-id"
 			okLoc := false
-			for _, b := range pdoc.Blocks {
-				for _, ins := range b.Instrs {
-					st, ok := ins.(*ssa.Store)
-					if !ok || exprSig(st.Addr, 0) != ".fieldID" {
-						continue
-					}
-					if phi, ok := st.Val.(*ssa.Phi); ok && len(phi.Edges) == 2 {
-						sigs := strings.Join(sortedSigs(phi.Edges), "|")
+			// the conversion of token locations sits in processDocument or in a helper it calls
+			locFns := []*ssa.Function{pdoc}
+			for _, sc := range staticCallees(pdoc) {
+				if c.inRoot(sc) && sc.Blocks != nil {
+					locFns = append(locFns, sc)
+				}
+			}
+			for _, lf := range locFns {
+				for _, b := range lf.Blocks {
+					for _, ins := range b.Instrs {
+						st, ok := ins.(*ssa.Store)
+						if !ok || exprSig(st.Addr, 0) != ".fieldID" {
+							continue
+						}
+						phi, ok := st.Val.(*ssa.Phi)
+						if !ok || len(phi.Edges) != 2 {
+							continue
+						}
 						// one edge: the id of the field being processed (index of the range over the per-field token
-						// frequencies); the other: getOrDefineField(loc.FieldVal), taken when FieldVal != ""
-						if strings.Contains(sigs, "(*interim).getOrDefineField(") && strings.Contains(sigs, ".FieldVal") && strings.Contains(sigs, "phi:rangeindex") {
+						// frequencies, possibly handed to the helper as a parameter); the other:
+						// getOrDefineField(loc.FieldVal), taken when FieldVal != ""
+						named, containing := false, false
+						for _, e := range phi.Edges {
+							sig := exprSig(e, 0)
+							switch {
+							case strings.Contains(sig, "(*interim).getOrDefineField(") && strings.Contains(sig, ".FieldVal"):
+								named = true
+							case strings.Contains(sig, "phi:rangeindex"):
+								containing = true
+							default:
+								if p, isParam := stripConv(e).(*ssa.Parameter); isParam && lf != pdoc {
+									all, n := true, 0
+									for _, site := range c.callsTo(lf) {
+										n++
+										if !strings.Contains(exprSig(argFor(site.Common(), p), 0), "phi:rangeindex") {
+											all = false
+										}
+									}
+									containing = all && n > 0
+								}
+							}
+						}
+						if named && containing {
 							okLoc = true
 						}
 					}
@@ -590,7 +650,7 @@ func init() {
 
 	register(&Rule{
 		Name:  "SIBLING-LITERAL",
-		Floor: 2,
+		Floor: 1,
 		Doc:   "all composite literals of tokenLocation in the processDocument family populate each field from the same source (FieldVal←location.Field(), StartVal←Start(), EndVal←End(), PositionVal←Pos()): sibling code paths (first occurrence of a term vs. repeated field) must agree",
 		Run: func(c *Ctx, scope string, r *Report) {
 			tl := c.NamedType("tokenLocation").Obj()
@@ -601,9 +661,6 @@ func init() {
 			}
 			var lits []lit
 			for _, fn := range c.srcFns {
-				if !strings.HasPrefix(fnName(fn), "(*interim).processDocument") {
-					continue
-				}
 				for _, b := range fn.Blocks {
 					for _, ins := range b.Instrs {
 						a, ok := ins.(*ssa.Alloc)
@@ -629,8 +686,12 @@ func init() {
 					}
 				}
 			}
-			if len(lits) < 2 {
-				r.undecided("tokenLocation/literals", "", "-", fmt.Sprintf("%d tokenLocation literals found", len(lits)))
+			if len(lits) == 0 {
+				r.undecided("tokenLocation/literals", "", "-", "no tokenLocation literal found")
+				return
+			}
+			if len(lits) == 1 {
+				r.ok("tokenLocation/literal-1", fnName(lits[0].fn), c.pos(lits[0].alloc.Pos()), "a single literal builds every token location: no sibling to disagree with")
 				return
 			}
 			ref := lits[0]
